@@ -48,7 +48,15 @@ pub struct Runner {
 pub const ACTOR_NAMES: [&str; 7] = ["owner", "lpone", "lptwo", "trader", "tradez", "whale", "donor"];
 pub const BYSTANDERS: [&str; 2] = ["bystander", "bystandez"];
 
-const PLAIN_DENOMS: [&str; 5] = ["uaura", "uusd", "ibc/27394fb092d2ec", "uatom", "x"];
+const PLAIN_DENOMS: [&str; 7] = [
+    "uaura",
+    "uusd",
+    "ibc/27394fb092d2ec",
+    "uatom",
+    "x",
+    "ibc/27394FB092D2ECCD56123C74F36E4C1F926001CEADA9CA97EA622B25F41E5EB2",
+    "factory/aura1qyqszqgpqyqszqgpqyqszqgpqyqszqgpq5g7vx/ulp.token-1",
+];
 
 pub fn gen_world(rng: &mut Rng, p: &Profile) -> (WorldCfg, u8) {
     let nd = rng.range(p.n_denoms.0, p.n_denoms.1) as usize;
